@@ -943,13 +943,13 @@ def oracle_claims(r):
 SUBCHECKS = [
     SubCheck("e1_elements", None, oracle_e1, enumerate=_e1_recipes, exhaustive_in=("quick", "thorough"), shards_quick=1, shards_thorough=1),
     SubCheck("e1_pairs", None, oracle_e1_pair, enumerate=_e1_pair_recipes, exhaustive_in=("quick", "thorough"), shards_quick=2, shards_thorough=2),
-    SubCheck("e2_elements", None, oracle_e2, enumerate=_e2_recipes, exhaustive_in=("thorough",), shards_quick=4, shards_thorough=16),
+    SubCheck("e2_elements", None, oracle_e2, enumerate=_e2_recipes, exhaustive_in=("thorough",), shards_quick=8, shards_thorough=16, time_quick=600.0),
     SubCheck("e2_then_pairs", st.fixed_dictionaries({"a": _pair_words(), "b": _pair_words()}), oracle_e2_pair,
              quick=1500, thorough=50000, shards_quick=2, shards_thorough=16),
-    SubCheck("r_trajectory", _rcase(), oracle_traj, quick=1600, thorough=60000, shards_quick=8, shards_thorough=16,
+    SubCheck("r_trajectory", _rcase(), oracle_traj, quick=1600, thorough=60000, shards_quick=8, shards_thorough=16, time_quick=600.0,
              essential={"entangled_at_measure": 0.1, "random_meas": 0.2}),
     SubCheck("claims", _claims_case(), oracle_claims, quick=2500, thorough=60000, shards_quick=4, shards_thorough=16,
              essential={"claims": 0.15}),
-    SubCheck("r_distribution", _rcase(max_n=4, max_ops=10, max_meas=3, max_reset=1), oracle_dist, quick=600, thorough=20000,
-             shards_quick=6, shards_thorough=16),
+    SubCheck("r_distribution", _rcase(max_n=4, max_ops=10, max_meas=3, max_reset=1), oracle_dist, quick=480, thorough=20000,
+             shards_quick=12, shards_thorough=16, time_quick=600.0, time_thorough=3000.0),
 ]
